@@ -92,7 +92,8 @@ RunUnknownCase(unknown, pos, n, multi) ==
        feat |-> <<"pos" \o ToString(pos) \o "of" \o ToString(n)>> \o (IF multi THEN <<"after_multi_output">> ELSE <<>>),
        x |-> [model |-> [nodes |-> g.nodes, inputs |-> g.inputs, outputs |-> g.outputs,
                          inits |-> [k \in 1..Len(names) |-> [name |-> names[k], t |-> g.inits[names[k]]]], opset |-> 13],
-              calls |-> <<[ins |-> ins, reuse |-> <<>>, allowed |-> IF s.ok THEN MustValue(s.out) ELSE MustErrorOf(SeqOfSet(s.errc))]>>,
+              \* the same call twice: the refusal does not wear off
+              calls |-> [k \in 1..2 |-> [ins |-> ins, reuse |-> <<>>, allowed |-> IF s.ok THEN MustValue(s.out) ELSE MustErrorOf(SeqOfSet(s.errc))]],
               checks |-> <<"inputs_unchanged", "weights_unchanged">>]]
 
 \* an unknown operator whose node contributes nothing to the graph outputs (no outputs, only omitted outputs, an unused output):
@@ -108,7 +109,8 @@ SideUnknownCase(unknown, outs, pos) ==
    IN [prop |-> "C18", fam |-> "unknown_op", kind |-> "model", op |-> "", attrs |-> <<>>, inputs |-> <<>>, nout |-> 0, allowed |-> NoCrash, cmp |-> "num", known |-> <<>>,
        feat |-> <<"side_node", "outs" \o ToString(Len(outs))>>,
        x |-> [model |-> [nodes |-> g.nodes, inputs |-> g.inputs, outputs |-> g.outputs, inits |-> <<>>, opset |-> 13],
-              calls |-> <<[ins |-> ins, reuse |-> <<>>, allowed |-> IF s.ok THEN MustValue(s.out) ELSE MustErrorOf(SeqOfSet(s.errc))]>>,
+              \* the same call twice: the refusal does not wear off
+              calls |-> [k \in 1..2 |-> [ins |-> ins, reuse |-> <<>>, allowed |-> IF s.ok THEN MustValue(s.out) ELSE MustErrorOf(SeqOfSet(s.errc))]],
               checks |-> <<"inputs_unchanged">>]]
 
 \* ---- the repository's sample files (two of them are not models at all) and seeded random byte strings
